@@ -137,13 +137,17 @@ func cmdDeterm() {
 					res = "PANIC"
 				}
 			}()
-			seccomp.SetArchVerif(p, ai)
 			insts, err := p.Assemble()
 			if err != nil {
-				return "ERR " + errClass(err)
+				// within one build the error of equal policies is the same TEXT (which architecture's table rejected a
+				// name shows in it)
+				return "ERR " + errClass(err) + " " + err.Error()
 			}
 			return instrTokens(insts)
 		}
+		// the architecture is set ONCE on the value (by-value copies carry it along): whatever a compilation - also a
+		// failing one - does to the value shows in the next compilation of the same value
+		seccomp.SetArchVerif(orig, ai)
 		first := compile(orig)
 		same := compile(orig) == first && compile(orig) == first
 		var wg sync.WaitGroup
